@@ -362,6 +362,17 @@ func (ex *Exec) step(st *State, fr *Frame, in ssa.Instruction, work *[]*State) {
 	case *ssa.UnOp:
 		ex.doUnOp(st, fr, x)
 	case *ssa.BinOp:
+		// the hidden index of a range loop: index+1 cannot overflow (it is bounded by a length)
+		if x.Op == token.ADD {
+			if ld, ok := x.X.(*ssa.UnOp); ok && ld.Op == token.MUL {
+				if al, ok := ld.X.(*ssa.Alloc); ok && al.Comment == "rangeindex" {
+					if c, ok := x.Y.(*ssa.Const); ok && c.Value != nil && c.Int64() == 1 {
+						fr.Regs[x] = Scalar{Add(ex.val(st, fr, x.X).(Scalar).T, One)}
+						return
+					}
+				}
+			}
+		}
 		fr.Regs[x] = ex.binop(st, fr, x.Op, ex.val(st, fr, x.X), ex.val(st, fr, x.Y), x.X.Type(), x.Type(), x.Pos())
 	case *ssa.FieldAddr:
 		p := ex.asPtr(st, fr, x.X)
